@@ -363,6 +363,15 @@ def persist_case(rng):
         sts = [j, a]
     else:
         sts = [a, j] if False else [j, {"object": "B", "fields": [["n", ["lit", 1]]]}, a]
+    if rng.random() < 0.5:
+        # a second just_once row of the SAME table under another nickname (either alphabetical order):
+        # the table name must keep denoting the last-defined one, each nickname its own row
+        other = rng.choice(["aq", "zq"])
+        j2 = {"object": "J", "nickname": other, "just_once": True,
+              "fields": [[n, rng.choice(pool)] for n, _ in jfields]}
+        sts.insert(sts.index(j) + rng.choice([0, 1]), j2)
+        a["fields"].append(["o", ["tmpl", [["expr", ["attr", ["name", other], jfields[0][0]]]]]])
+        a["fields"].append(["oref", ["ref", other]])
     if rng.random() < 0.4:
         k2 = {"object": "K", "just_once": True, "fields": [["__h", ["lit", 9]], ["f1", ["tmpl", [["expr", ["attr", ["name", "jq"], "id"]]]]]]}
         sts.insert(1, k2)
